@@ -172,7 +172,11 @@ def unit_leaf(recipe):
         ret, exc = returned(kd)
         if not ret:
             names = sorted(set(exc_name(p) for p in exc))
-            ctx.assume("%s.k_and_deriv raises %s for every input (uncallable: no wrong number can be returned; reported, not a violation, DESIGN 5.C15)" % (cls, names))
+            if names == ["NotImplementedError"]:
+                ctx.assume("%s.k_and_deriv is declared unsupported (raises NotImplementedError)" % cls)
+            else:
+                ctx.holds("k_and_deriv(X,Y) returns input gradients (does not raise for a valid configuration)", False,
+                          "raises %s for every input: %s" % (names, [str(p[1])[:160] for p in exc][:1]), fq_kd, replay=replay_raises(recipe, "k_and_deriv"))
         else:
             ctx.holds("k_and_deriv(X,Y) returns on one path", len(ret) == 1, "", fq_kd)
             k, dk = ret[0][0]
@@ -205,7 +209,11 @@ def unit_leaf(recipe):
                 ret, exc = returned(gp)
                 if not ret:
                     nm = sorted(set(exc_name(p) for p in exc))
-                    ctx.assume("%s.__call__(eval_gradient=True) raises %s (uncallable; reported, not a violation)" % (cls, nm))
+                    if nm == ["NotImplementedError"]:
+                        ctx.assume("%s.__call__(eval_gradient=True) is declared unsupported (raises NotImplementedError)" % cls)
+                    else:
+                        ctx.holds("%s returns (does not raise for a valid configuration)" % tag, False, "raises %s: %s" % (nm, [str(p[1])[:160] for p in exc][:1]), fq_call,
+                                  replay=replay_raises(recipe, "theta", fixed))
                     continue
                 Kg, G = ret[0][0]
                 want = []
@@ -278,6 +286,25 @@ def replay_dspec(recipe):
                     if abs(fd[j] - dk[i, j, f]) > 1e-6 * (1 + abs(fd[j])):
                         bad.append({"i": i, "j": j, "f": f, "k_and_deriv": float(dk[i, j, f]), "finite_difference_of___call__": float(fd[j])})
         return {"reproduced": bool(bad), "class": recipe.cls, "recipe": recipe.name, "mismatches": bad[:6]}
+    return replay
+
+
+def replay_raises(recipe, what, fixed=()):
+    def replay(wit):
+        env = _env_from(wit, recipe)
+        kern = _native_kernel(recipe, env, fixed)
+        rng = np.random.RandomState(11)
+        X, Y = rng.rand(NX, recipe.nfeat), rng.rand(NY, recipe.nfeat)
+        try:
+            if what == "k_and_deriv":
+                kern.k_and_deriv(X, Y)
+            else:
+                kern(X, eval_gradient=True)
+        except NotImplementedError:
+            return {"reproduced": False, "note": "NotImplementedError"}
+        except Exception as e:
+            return {"reproduced": True, "class": recipe.cls, "recipe": recipe.name, "raised": "%s: %s" % (type(e).__name__, e)}
+        return {"reproduced": False}
     return replay
 
 
@@ -404,6 +431,149 @@ def unit_composites(ctx):
                     chain = tm.mk_add(*[dkk[i, j, q] * M[f, q] / (std[f] if use_std else 1) for q in range(n1)])
                     ctx.equal("%s chain rule dk[%d,%d,%d]" % (tag, i, j, f), hy, dk[i, j, f], chain, fq)
         ctx.canary("%s canary" % tag, hy, dk[0, 0, 0], 2 * tm.mk_add(*[dkk[0, 0, q] * M[0, q] / (std[0] if use_std else 1) for q in range(n1)]) + 1)
+
+
+# ------------------------------------------------------------------ additive kernels, modular: k0 contract + abstract machinery
+ADDITIVE = ("DiffARBFV2", "DiffAddLLRBF", "DiffAddRQ")
+
+
+def unit_k0(cls, mapping=False):
+    """Contract of the per-dimension factor of one DiffAdditiveMixin subclass:
+         k0[i,j,f] = phi(x_if, y_jf, l_f);  _get_k0_dk0_train: dk0 = l_f * d k0/d l_f;  _get_k0_dk0_eval: dk0 = d k0/d x_if;
+         get_k0_for_mapping(x, y, l)[i,j] = phi(x_i, y_j, l)  (the factor used for mapping is the factor the kernel uses, C11)."""
+    def run(ctx):
+        it = ctx.interp
+        mod = setup_interp(it)
+        nf = 2
+        for iso in (False, True):
+            r = [q for q in leaf_recipes() if q.cls == cls and q.order == 2 and ("iso" in q.name.split("/")) == iso][0]
+            args, kw = r.build()
+            lv = r.hparams["length_scale"][0]
+            if not iso:
+                lv = lv[:nf]
+                kw["length_scale"] = obj_list(lv)
+            kern = it.call(mod.ns[cls], [], kw)
+            H = [h for h in r.hyps]
+            X = sym_array("x", (NX, nf))
+            Y = sym_array("y", (NY, nf))
+            tag = "%s[%s]" % (cls, "iso" if iso else "aniso")
+            fq = FQ(cls, "_get_k0_dk0_train", "_get_k0_dk0_eval", "get_k0_for_mapping")
+            k0t, dk0t = it.call_method(kern, "_get_k0_dk0_train", [X.copy(), Y.copy(), True])
+            k0e, dk0e = it.call_method(kern, "_get_k0_dk0_eval", [X.copy(), Y.copy(), True])
+            k0n, dn = it.call_method(kern, "_get_k0_dk0_eval", [X.copy(), Y.copy(), False])
+            ctx.holds("%s shapes" % tag, k0t.shape == (NX, NY, nf) and dk0t.shape == (NX, NY, nf) and dk0e.shape == (NX, NY, nf) and dn is None, "", fq)
+            for i in range(NX):
+                for j in range(NY):
+                    for f in range(nf):
+                        l = lv[f] if not iso else lv[0]
+                        fv = set(u.args[0] for u in tm.free_vars(tm.lift(k0t[i, j, f])))
+                        foreign = [v for v in fv if v[:2] in ("x_", "y_") and v not in ("x_%d_%d" % (i, f), "y_%d_%d" % (j, f))]
+                        ctx.holds("%s k0[%d,%d,%d] reads x[%d,%d], y[%d,%d] only" % (tag, i, j, f, i, f, j, f), not foreign, str(foreign), fq)
+                        ctx.equal("%s train/eval factors agree [%d,%d,%d]" % (tag, i, j, f), H, k0t[i, j, f], k0e[i, j, f], fq)
+                        ctx.equal("%s eval(no gradient) factor [%d,%d,%d]" % (tag, i, j, f), H, k0n[i, j, f], k0e[i, j, f], fq)
+                        ctx.equal("%s train dk0[%d,%d,%d] = l * d k0/d l" % (tag, i, j, f), H, dk0t[i, j, f], l * tm.diff(tm.lift(k0t[i, j, f]), l) if not iso else
+                                  l * tm.diff(tm.substitute(tm.lift(k0t[i, j, f]), {}), l), fq)
+                        ctx.equal("%s eval dk0[%d,%d,%d] = d k0/d x" % (tag, i, j, f), H, dk0e[i, j, f], tm.diff(tm.lift(k0e[i, j, f]), X[i, f]), fq)
+            ctx.canary("%s canary" % tag, H, dk0e[0, 1, 0], 2 * tm.diff(tm.lift(k0e[0, 1, 0]), X[0, 0]) + 1)
+            # symmetry and PSD form of the one-dimensional factor
+            k0s, _ = it.call_method(kern, "_get_k0_dk0_eval", [Y.copy(), X.copy(), False])
+            for f in range(nf):
+                ctx.equal("%s factor symmetric k0(x,y) = k0(y,x) [f=%d]" % (tag, f), H, k0e[0, 1, f], k0s[1, 0, f], fq)
+            # mapping factor (1-D arrays, explicit length scale): clause of C11
+            for f in (range(nf) if mapping else ()):
+                l = lv[f] if not iso else lv[0]
+                km = all_paths(it, lambda: it.call_method(kern, "get_k0_for_mapping", [X[:, f].copy(), Y[:, f].copy(), l]))
+                ret, exc = returned(km)
+                ctx.holds("%s get_k0_for_mapping returns [f=%d]" % (tag, f), len(ret) == 1, "%s" % [exc_name(p) for p in exc], fq)
+                if len(ret) == 1:
+                    kmv = ret[0][0]
+                    for i in range(NX):
+                        for j in range(NY):
+                            ctx.equal("%s mapping factor = kernel factor [%d,%d,f=%d]" % (tag, i, j, f), H, kmv[i, j], k0e[i, j, f], fq, replay=replay_k0map(cls))
+    return run
+
+
+def replay_k0map(cls):
+    def replay(wit):
+        import ciderpress.models.kernels as K
+        rng = np.random.RandomState(3)
+        kw = {"order": 2, "length_scale": np.array([0.7, 1.9]), "scale": [1.0, 1.0, 1.0]}
+        if cls in ("DiffAddLLRBF", "DiffAddRQ"):
+            kw["alpha"] = 1.7
+        kern = getattr(K, cls)(**kw)
+        X, Y = rng.rand(3, 2), rng.rand(4, 2)
+        k0 = kern._get_k0_dk0_eval(X, Y, False)[0]
+        bad = []
+        for f in range(2):
+            km = kern.get_k0_for_mapping(X[:, f], Y[:, f], kw["length_scale"][f])
+            if np.max(np.abs(km - k0[:, :, f])) > 1e-12:
+                bad.append({"feature": f, "max_abs_diff": float(np.max(np.abs(km - k0[:, :, f])))})
+        return {"reproduced": bool(bad), "class": cls, "mismatches": bad}
+    return replay
+
+
+def unit_additive(order, iso):
+    """DiffAdditiveMixin.__call__ / k_and_deriv with an abstract per-dimension factor: k0[i,j,f], dk0[i,j,f] fresh symbols."""
+    def run(ctx):
+        it = ctx.interp
+        mod = setup_interp(it)
+        ctx.assume(SK_ASSUMPTION)
+        nf = max(3, order)
+        X = sym_array("x", (NX, nf))
+        Y = sym_array("y", (NY, nf))
+        k0 = sym_array("k0", (NX, NY, nf))
+        dk0 = sym_array("dk0", (NX, NY, nf))
+        k0x = sym_array("k0", (NX, NX, nf))
+        sv = [tm.var("s%d" % i) for i in range(order + 1)]
+        fq = FQ("DiffAdditiveMixin", "__call__", "k_and_deriv", "get_zero_derivs")
+        for fixed in ((), ("length_scale",), ("scale",), ("length_scale", "scale")):
+            kc = ClassV("_AbstractAdditive", [mod.ns["DiffAdditiveMixin"], it.load_module("sklearn.gaussian_process.kernels").ns["Kernel"]], mod)
+            o = Obj(kc)
+            l = tm.var("l") if iso else obj_list([tm.var("l%d" % f) for f in range(nf)])
+            kw = {"order": order, "length_scale": l, "scale": list(sv)}
+            for hp in fixed:
+                kw[hp + "_bounds"] = "fixed"
+            init, _ = mod.ns["DiffAdditiveMixin"].lookup("__init__")
+            it.call_function(init, [o], kw)
+            o.fields["_get_k0_dk0_train"] = Builtin("abs.k0train", lambda Xa, Ya, eg: (k0x.copy(), dk0[:, :NX].copy() if eg else None) if Ya.shape[0] == NX and Ya is Xa else (k0.copy(), dk0.copy() if eg else None))
+            o.fields["_get_k0_dk0_eval"] = Builtin("abs.k0eval", lambda Xa, Ya, eg: (k0.copy(), dk0.copy() if eg else None))
+            tag = "additive[o%d,%s,fixed=%s]" % (order, "iso" if iso else "aniso", ",".join(fixed))
+            E = lambda i, j, arr: tm.mk_add(*[sv[n] * esym([arr[i, j, f] for f in range(nf)], n) for n in range(order + 1)])
+            if not fixed:
+                K = it.call(o, [X.copy(), Y.copy()], {})
+                k, dk = it.call_method(o, "k_and_deriv", [X.copy(), Y.copy()])
+                kk, en = it.call(o, [X.copy(), Y.copy()], {"get_sub_kernels": True})
+                ctx.holds("%s len(en) = order+1" % tag, len(en) == order + 1, "", fq)
+                for i in range(NX):
+                    for j in range(NY):
+                        ctx.equal("%s value[%d,%d] = sum_n s_n e_n(k0)" % (tag, i, j), [], K[i, j], E(i, j, k0), fq)
+                        ctx.equal("%s k_and_deriv value[%d,%d]" % (tag, i, j), [], k[i, j], E(i, j, k0), fq)
+                        for n in range(1, order + 1):
+                            ctx.equal("%s sub-kernel e_%d[%d,%d]" % (tag, n, i, j), [], en[n][i, j], esym([k0[i, j, f] for f in range(nf)], n), fq)
+                        for f in range(nf):
+                            ctx.equal("%s chain rule dk[%d,%d,%d] = dK/dk0_f * dk0_f" % (tag, i, j, f), [], dk[i, j, f], tm.diff(E(i, j, k0), k0[i, j, f]) * dk0[i, j, f], fq)
+                ctx.canary("%s canary" % tag, [], dk[0, 1, 0], 2 * tm.diff(E(0, 1, k0), k0[0, 1, 0]) * dk0[0, 1, 0] + 1)
+            Kg, G = it.call(o, [X.copy()], {"eval_gradient": True})
+            want = []
+            if "length_scale" not in fixed:
+                if iso:
+                    want.append(lambda i, j: tm.mk_add(*[tm.diff(E(i, j, k0x), k0x[i, j, f]) * dk0[i, j, f] for f in range(nf)]))
+                else:
+                    for f in range(nf):
+                        want.append(lambda i, j, f=f: tm.diff(E(i, j, k0x), k0x[i, j, f]) * dk0[i, j, f])
+            if "scale" not in fixed:
+                for n in range(order + 1):
+                    want.append(lambda i, j, n=n: sv[n] * esym([k0x[i, j, f] for f in range(nf)], n))
+            ctx.holds("%s gradient column count = %d" % (tag, len(want)), G.shape == (NX, NX, len(want)), str(G.shape), fq)
+            if G.shape == (NX, NX, len(want)):
+                for i in range(NX):
+                    for j in range(NX):
+                        ctx.equal("%s gradient-call value[%d,%d]" % (tag, i, j), [], Kg[i, j], E(i, j, k0x), fq)
+                        for p, w in enumerate(want):
+                            ctx.equal("%s G[%d,%d,%d]" % (tag, i, j, p), [], G[i, j, p], w(i, j), fq)
+                if want:
+                    ctx.canary("%s G canary" % tag, [], G[0, 1, 0], 2 * want[0](0, 1) + 1)
+    return run
 
 
 # ------------------------------------------------------------------ subset / spin-symmetric mixins
@@ -586,6 +756,15 @@ def unit_dftkernel(mode):
             ctx.holds("%s derivative shape (Nctrl, nspin, N0, Nsamp)" % tag, dkd.shape == (nctrl, nspin, nf, ns), str(dkd.shape), fq)
             # derivative of the abstract K: D_f K w.r.t. its first argument block
             def dwant(c, s, f, g):
+                if pol and nspin == 1:
+                    # unpolarised input in POL mode: both spin slots hold X0T[0]; the returned array is the derivative with respect to
+                    # ONE spin channel's descriptors (the convention the orbital-derivative covariances of train.py consume: an
+                    # occupation change of one spin-orbital moves one channel), i.e. the partial derivative w.r.t. the alpha slot
+                    xb = [tm.var("xb_%d" % q) for q in range(nf)]
+                    xa, ca, cb = row(0, g), list(Xc[0, c]), list(Xc[1, c])
+                    w = K(xa, ca) * K(xb, cb) + K(xa, cb) * K(xb, ca)
+                    d = diff_abstract(w, X0T[0, f, g], nf)
+                    return tm.substitute(d, {xb[q]: tm.lift(xa[q]) for q in range(nf)})
                 w = want(c, s, g)
                 # differentiate w.r.t. X0T[s, f, g] with d K(x, c)/d x_f = D_f K(x, c)
                 return diff_abstract(w, X0T[s, f, g], nf)
@@ -667,8 +846,11 @@ def replay_dftkernel(mode, nspin):
                         Xp = X0T.copy()
                         Xp[s, f, g] = t
                         return dk.get_k(Xp)
-                    fd = central_diff(val, X0T[s, f, g], 1e-3)
+                    h = 1e-4
+                    fd = (val(X0T[s, f, g] + h) - val(X0T[s, f, g] - h)) / (2 * h)
                     fdv = fd[:, s, g] if mode == "SEP" else (fd[:, g] if mode == "POL" else fd[:, s * ns + g])
+                    if mode == "POL" and nspin == 1:
+                        fdv = fdv / 2   # per-channel convention, see the contract
                     if np.max(np.abs(fdv - dkd[:, s, f, g])) > 1e-6:
                         bad.append({"s": s, "f": f, "g": g, "max_abs_diff": float(np.max(np.abs(fdv - dkd[:, s, f, g])))})
         return {"reproduced": bool(bad), "mode": mode, "nspin": nspin, "mismatches": bad[:5]}
@@ -694,7 +876,14 @@ def unit_registry(ctx):
 def units():
     u = [("registry", unit_registry), ("composites", unit_composites)]
     for r in leaf_recipes():
+        if r.cls in ADDITIVE and (r.order > 2 or (r.cls == "DiffAddRQ" and "iso" in r.name.split("/"))):
+            continue    # covered modularly (k0 contract + abstract additive machinery); end-to-end only at low order
         u.append(("leaf/" + r.name, unit_leaf(r)))
+    for c in ADDITIVE:
+        u.append(("k0/" + c, unit_k0(c)))
+    for order in range(1, 5):
+        for iso in (False, True):
+            u.append(("additive/o%d/%s" % (order, "iso" if iso else "aniso"), unit_additive(order, iso)))
     for s, b in sorted(SUBSET.items()):
         u.append(("subset/" + s, unit_subset(s, b)))
     for s, b in sorted(SPINSYM.items()):
